@@ -119,6 +119,10 @@ func NewLoaders(file Resource) ([]*Loader, error) {
 	// the fonts of a collection have distinct table directories: bound their
 	// total size by the size of the file (the offsets may be equal, or overlap)
 	directoriesSize := int64(0)
+	// the fonts of a collection usually share some of their tables, which are loaded
+	// once for each font: bound the total size of the tables by a multiple of the size of the file
+	const maxSharing = 64
+	tablesSize := int64(0)
 	for i, o := range offsets {
 		out[i], err = parseOneFont(file, o, relativeOffset)
 		if err != nil {
@@ -127,6 +131,12 @@ func NewLoaders(file Resource) ([]*Loader, error) {
 		directoriesSize += 16 * int64(len(out[i].tables))
 		if directoriesSize > out[i].fileSize {
 			return nil, errors.New("invalid collection: overlapping table directories")
+		}
+		for _, section := range out[i].tables {
+			tablesSize += int64(section.length)
+		}
+		if tablesSize > maxSharing*out[i].fileSize {
+			return nil, errors.New("invalid collection: too many shared tables")
 		}
 	}
 	return out, nil
